@@ -176,6 +176,48 @@ pub fn capture_take() -> Vec<String> {
     lines
 }
 
+/// Call the real `apply` while file descriptor 1 refuses every write (`/dev/full`, or a pipe whose
+/// reader has gone): the caller's standard output is not the library's to rely on. Returns the
+/// outcome; whatever fd 1 was before (the capture file) is restored afterwards.
+pub fn call_with_unwritable_stdout(rule: &Value, data: &Value, closed_pipe: bool) -> Option<Outcome> {
+    if cfg!(miri) {
+        return None;
+    }
+    let _ = std::io::stdout().flush();
+    unsafe {
+        let keep = libc::dup(1);
+        if keep < 0 {
+            return None;
+        }
+        let bad = if closed_pipe {
+            let mut fds = [0i32; 2];
+            if libc::pipe(fds.as_mut_ptr()) != 0 {
+                libc::close(keep);
+                return None;
+            }
+            libc::close(fds[0]);
+            libc::signal(libc::SIGPIPE, libc::SIG_IGN);
+            fds[1]
+        } else {
+            let path = std::ffi::CString::new("/dev/full").unwrap();
+            libc::open(path.as_ptr(), libc::O_WRONLY)
+        };
+        if bad < 0 || libc::dup2(bad, 1) < 0 {
+            libc::close(keep);
+            return None;
+        }
+        let out = call(rule, data);
+        // whatever is still buffered belongs to the unwritable descriptor: flush it there, not into the capture
+        let _ = std::panic::catch_unwind(|| {
+            let _ = std::io::stdout().flush();
+        });
+        libc::dup2(keep, 1);
+        libc::close(keep);
+        libc::close(bad);
+        Some(out)
+    }
+}
+
 /// Call the real `apply` and collect the lines it printed.
 pub fn observe(rule: &Value, data: &Value) -> Obs {
     if capture_active() {
